@@ -49,7 +49,7 @@ pub struct Ctx {
     pub notes: Vec<String>,
 }
 
-const MAX_FP: usize = 400_000;
+const MAX_FP: usize = 60_000;
 const MAX_REC_PER_SIG: u64 = 3;
 
 impl Ctx {
@@ -171,11 +171,28 @@ impl Ctx {
         }
     }
 
+    pub fn start_marker(&mut self) {
+        self.emit("{\"W\":1}");
+    }
+
+    /// cumulative summary of this process so far (survives a later death of the worker)
+    pub fn checkpoint(&mut self) {
+        self.summary("P");
+    }
+
     pub fn finish(&mut self) {
+        self.summary("S");
+        self.emit("{\"E\":1}");
+        if let Some(j) = &mut self.journal {
+            let _ = j.flush();
+        }
+    }
+
+    fn summary(&mut self, tag: &str) {
         let mut fps: Vec<u64> = self.fingerprints.iter().copied().collect();
         fps.sort_unstable();
         let sigs: BTreeMap<String, u64> = self.seen_sigs.clone();
-        let rec = json!({"S": {
+        let rec = json!({tag: {
             "shard": self.shard,
             "evaluations": self.evaluations,
             "fingerprints": fps,
@@ -187,9 +204,6 @@ impl Ctx {
         }});
         let l = rec.to_string();
         self.emit(&l);
-        if let Some(j) = &mut self.journal {
-            let _ = j.flush();
-        }
     }
 }
 
